@@ -666,4 +666,28 @@ theorem configure_parameters_zShape (rd : String → Option Num) (c : Cfg) (star
     rfl
   exact ⟨_, _, _, rfl, rfl, hrun, rfl, rfl, rfl⟩
 
+/-- the defaults of the signatures of the nineteen constructors: the empty name, NaN for every parameter, height 1 (the
+    body `configure cls []` of the model: what the factory builds) -/
+theorem shape_defaults :
+    (Arc_init.dflt_name, Arc_init.dflt_start, Arc_init.dflt_end_, Arc_init.dflt_height) = ("", .nan, .nan, .fin 1) ∧
+    (Bell_init.dflt_name, Bell_init.dflt_center, Bell_init.dflt_width, Bell_init.dflt_slope, Bell_init.dflt_height) = ("", .nan, .nan, .nan, .fin 1) ∧
+    (Binary_init.dflt_name, Binary_init.dflt_start, Binary_init.dflt_direction, Binary_init.dflt_height) = ("", .nan, .nan, .fin 1) ∧
+    (Concave_init.dflt_name, Concave_init.dflt_inflection, Concave_init.dflt_end_, Concave_init.dflt_height) = ("", .nan, .nan, .fin 1) ∧
+    (Cosine_init.dflt_name, Cosine_init.dflt_center, Cosine_init.dflt_width, Cosine_init.dflt_height) = ("", .nan, .nan, .fin 1) ∧
+    (Gaussian_init.dflt_name, Gaussian_init.dflt_mean, Gaussian_init.dflt_standard_deviation, Gaussian_init.dflt_height) = ("", .nan, .nan, .fin 1) ∧
+    (GaussianProduct_init.dflt_name, GaussianProduct_init.dflt_mean_a, GaussianProduct_init.dflt_standard_deviation_a, GaussianProduct_init.dflt_mean_b, GaussianProduct_init.dflt_standard_deviation_b, GaussianProduct_init.dflt_height) = ("", .nan, .nan, .nan, .nan, .fin 1) ∧
+    (PiShape_init.dflt_name, PiShape_init.dflt_bottom_left, PiShape_init.dflt_top_left, PiShape_init.dflt_top_right, PiShape_init.dflt_bottom_right, PiShape_init.dflt_height) = ("", .nan, .nan, .nan, .nan, .fin 1) ∧
+    (Ramp_init.dflt_name, Ramp_init.dflt_start, Ramp_init.dflt_end_, Ramp_init.dflt_height) = ("", .nan, .nan, .fin 1) ∧
+    (Rectangle_init.dflt_name, Rectangle_init.dflt_start, Rectangle_init.dflt_end_, Rectangle_init.dflt_height) = ("", .nan, .nan, .fin 1) ∧
+    (SemiEllipse_init.dflt_name, SemiEllipse_init.dflt_start, SemiEllipse_init.dflt_end_, SemiEllipse_init.dflt_height) = ("", .nan, .nan, .fin 1) ∧
+    (Sigmoid_init.dflt_name, Sigmoid_init.dflt_inflection, Sigmoid_init.dflt_slope, Sigmoid_init.dflt_height) = ("", .nan, .nan, .fin 1) ∧
+    (SigmoidDifference_init.dflt_name, SigmoidDifference_init.dflt_left, SigmoidDifference_init.dflt_rising, SigmoidDifference_init.dflt_falling, SigmoidDifference_init.dflt_right, SigmoidDifference_init.dflt_height) = ("", .nan, .nan, .nan, .nan, .fin 1) ∧
+    (SigmoidProduct_init.dflt_name, SigmoidProduct_init.dflt_left, SigmoidProduct_init.dflt_rising, SigmoidProduct_init.dflt_falling, SigmoidProduct_init.dflt_right, SigmoidProduct_init.dflt_height) = ("", .nan, .nan, .nan, .nan, .fin 1) ∧
+    (Spike_init.dflt_name, Spike_init.dflt_center, Spike_init.dflt_width, Spike_init.dflt_height) = ("", .nan, .nan, .fin 1) ∧
+    (SShape_init.dflt_name, SShape_init.dflt_start, SShape_init.dflt_end_, SShape_init.dflt_height) = ("", .nan, .nan, .fin 1) ∧
+    (Trapezoid_init.dflt_name, Trapezoid_init.dflt_bottom_left, Trapezoid_init.dflt_top_left, Trapezoid_init.dflt_top_right, Trapezoid_init.dflt_bottom_right, Trapezoid_init.dflt_height) = ("", .nan, .nan, .nan, .nan, .fin 1) ∧
+    (Triangle_init.dflt_name, Triangle_init.dflt_left, Triangle_init.dflt_top, Triangle_init.dflt_right, Triangle_init.dflt_height) = ("", .nan, .nan, .nan, .fin 1) ∧
+    (ZShape_init.dflt_name, ZShape_init.dflt_start, ZShape_init.dflt_end_, ZShape_init.dflt_height) = ("", .nan, .nan, .fin 1) := by
+  refine ⟨rfl, rfl, rfl, rfl, rfl, rfl, rfl, rfl, rfl, rfl, rfl, rfl, rfl, rfl, rfl, rfl, rfl, rfl, rfl⟩
+
 end Py.W5Y
